@@ -312,9 +312,9 @@ def _refused_tip_change(ctx, mode, veto, setup, via, path, master, tree, new_rev
         keys.remove("m_info")
         ok = False
     if ok:
-        ok = _same(ctx, before, after, keys, "%s:tip-refused-but-changed:%s" % (mode, out), "state after an uncommit whose tip change was refused", detail)
+        ok = _same(ctx, before, after, keys, "%s:tip-refused-but-changed" % mode, "state after an uncommit whose tip change was refused", detail)
     else:
-        _same(ctx, before, after, [k for k in keys if k not in ("parents", "status")], "%s:tip-refused-but-changed:%s" % (mode, out),
+        _same(ctx, before, after, [k for k in keys if k not in ("parents", "status")], "%s:tip-refused-but-changed" % mode,
               "state after an uncommit whose tip change was refused", detail)
     ctx.note(("tip-refused", mode, setup, via, veto, min(old_revno - new_revno, 3), tree, len(before.get("parents", [])) > 1), nontrivial=True,
              sample={"mode": mode + "+tip-refused", "setup": setup, "via": via, "veto": veto, "outcome": out, "d": old_revno - new_revno})
